@@ -118,7 +118,14 @@ fn gen_case(tr: &mut Trace, idx: u64, subseed: u64, thorough: bool, kind: &str, 
         for _ in 0..6 { if !cuts.is_empty() { sel.push(*rng.pick(&cuts)); } }
         cuts = sel;
     }
-    for (k, e) in cuts { ex.op_restore(tr, k, e); }
+    for (k, e) in &cuts { ex.op_restore(tr, *k, *e); }
+    // --- the restarted server continues the journal: reopen (truncating a torn tail), append, restart again
+    if kind != "malformed" {
+        let mut rs: Vec<(usize, u64)> = cuts.iter().copied().take(if thorough { 12 } else { 3 }).collect();
+        rs.push((n, 0));
+        rs.push((rng.below(n as u64 + 1) as usize, 0));
+        for (k, e) in rs { ex.op_resume(tr, k, e); }
+    }
     if thorough && kind == "producible" {
         // offsets inside the header: the reader refuses the file (observation, no monitor)
         for e in 0..ex.hdr { tr.op(&format!("hdrcut {e}")); tr.out(&format!("res {}", hdr_cut(&ex, e))); }
@@ -146,6 +153,8 @@ fn gen_case(tr: &mut Trace, idx: u64, subseed: u64, thorough: bool, kind: &str, 
                 if ex.pruned != before {
                     tr.mon_fail("c12.wf", "prune-not-idempotent", "pruning a pruned journal with the same live sets changed it");
                 }
+                // the same through the REAL journal thread: events, prune request, later events
+                ex.op_sprune(tr, *k, lj, lw, *k2);
             }
         }
     }
@@ -195,6 +204,7 @@ fn replay(tr: &mut Trace) {
                         None => { tr.op(&rest.join(" ")); tr.out("!bad-op"); }
                     },
                     ["restore", k, e] => ex.op_restore(tr, k.parse().unwrap(), e.parse().unwrap()),
+                    ["resume", k, e, ..] => ex.op_resume(tr, k.parse().unwrap(), e.parse().unwrap()),
                     ["prune", k, lj, lw] => ex.op_prune(tr, k.parse().unwrap(), &u32s(lj), &u32s(lw)),
                     ["papp", r @ ..] => match Rec::parse(r) {
                         Some(rec) => ex.op_papp(tr, rec),
@@ -202,6 +212,7 @@ fn replay(tr: &mut Trace) {
                     },
                     ["pprune", lj, lw] => ex.op_pprune(tr, &u32s(lj), &u32s(lw)),
                     ["prestore"] => ex.op_prestore(tr),
+                    ["sprune", k, lj, lw, k2] => ex.op_sprune(tr, k.parse().unwrap(), &u32s(lj), &u32s(lw), k2.parse().unwrap()),
                     _ => { tr.op(&rest.join(" ")); tr.out("!bad-op"); }
                 }
             }
